@@ -128,7 +128,7 @@ small = [0, 1, 2, 3, 7]
 lists = [(), (1,), (2, 0), (3, 2, 1), (0, 5, 2, 2)]
 CASES = {
     'walrus': [(l, t) for l in lists for t in (0, 2)], 'walrus2': [(a, b) for a in small for b in small], 'dictcomp': [(l,) for l in lists],
-    'starred': [(l,) for l in lists if len(l) >= 2], 'delete': [(a,) for a in small], 'local_import': [(a,) for a in small],
+    'starred': [(l,) for l in lists if len(l) >= 2], 'delete': [(a,) for a in small], 'delete_item': [(l, i) for l in lists for i in (0, 1, -1, 3, -5)], 'local_import': [(a,) for a in small],
     'enum_start': [(l, s) for l in lists for s in (0, 3)], 'forelse': [(l, t) for l in lists for t in (2, 4)],
     'condexpr': [(a, b) for a in small for b in small], 'guard': [(a, b) for a in small for b in small], 'match_': [(c,) for c in small],
     'zipped': [(l, m) for l in lists for m in lists], 'extend_comp': [(l,) for l in lists], 'anyall': [(l, t) for l in lists for t in (0, 2)],
